@@ -493,13 +493,17 @@ def lint_ghost(lines, where):
         raise ExtractError('overlay body insertion for %s does not start with ghost code: %s' % (where, first.strip()))
 
 
-def splice_function(src_text, spec, log, where):
-    """Apply rules + overlay to one function. Returns list of (line, origin)."""
+def splice_function(src_text, spec, log, where, degraded=False):
+    """Apply rules + overlay to one function. Returns list of (line, origin).
+
+    degraded=True (used only after the normal splice lost an anchor): every shape-dependent directive whose target is gone is
+    dropped and only the contract (`spec`) is guaranteed to be attached; the caller records this in the map."""
     text = apply_core_rules(src_text, log, where)
     for r in spec['rules']:
-        optional = r[0] == '?'
+        optional = r[0] == '?' or degraded
         if optional:
-            r = r[1:]
+            if r[0] == '?':
+                r = r[1:]
             try:
                 probe = dict(spec)
                 probe['rules'] = [r]
@@ -510,7 +514,7 @@ def splice_function(src_text, spec, log, where):
                 log.append((r[0], where, 'optional rule not applicable: %s' % e))
             continue
         text = _apply_one_rule(text, r, log, where)
-    return _splice_after_rules(text, src_text, spec, log, where)
+    return _splice_after_rules(text, src_text, spec, log, where, degraded)
 
 
 def _apply_one_rule(text, r, log, where):
@@ -538,7 +542,7 @@ def _apply_one_rule(text, r, log, where):
     return text
 
 
-def _splice_after_rules(text, src_text, spec, log, where):
+def _splice_after_rules(text, src_text, spec, log, where, degraded=False):
     if spec.get('vacuity') and os.environ.get('VERIF_VACUITY_TWIN'):
         # vacuity guard: the twin of this function gets `ensures false` and MUST be rejected by the verifier
         newspec = []
@@ -603,6 +607,9 @@ def _splice_after_rules(text, src_text, spec, log, where):
         lint_ghost(spec['top'], where)
         add(body_open.end, spec['top'], 'overlay:top')
     for kind, kk, lines in spec['loopins']:
+        if degraded and (kk < 1 or kk > len(loops)):
+            log.append(('DEGRADED', where, '%s %d dropped: no such loop' % (kind, kk)))
+            continue
         if kk < 1 or kk > len(loops):
             raise ExtractError('%s %d: no such loop in %s' % (kind, kk, where))
         kw, bo, bc = loops[kk - 1]
@@ -616,6 +623,9 @@ def _splice_after_rules(text, src_text, spec, log, where):
             add(sig[bc].start, lines, 'overlay:leave%d' % kk)
     # ghost iterator names for `for` loops:  for P in E  ->  for P in name: E
     for kk, nm in spec.get('iters', []):
+        if degraded and (kk < 1 or kk > len(loops) or sig[loops[kk - 1][0]].text != 'for'):
+            log.append(('DEGRADED', where, 'iter %d dropped: no such for loop' % kk))
+            continue
         if kk < 1 or kk > len(loops):
             raise ExtractError('iter %d: no such loop in %s' % (kk, where))
         kw, bo, bc = loops[kk - 1]
@@ -643,6 +653,9 @@ def _splice_after_rules(text, src_text, spec, log, where):
     for kind, nth, anchor, lines in spec['anchors']:
         lint_ghost(lines, where)
         hits = [i for i, l in enumerate(tlines) if norm_ws(anchor) in norm_ws(l)]
+        if degraded and len(hits) < nth:
+            log.append(('DEGRADED', where, 'ghost block at anchor %r (#%d) dropped: anchor not found' % (anchor, nth)))
+            continue
         if len(hits) < nth:
             raise ExtractError('anchor %r (#%d) not found in %s' % (anchor, nth, where))
         li = hits[nth - 1]
@@ -911,7 +924,18 @@ def build_unit(template, repo, out_rs, out_map):
         text = src[(it.attr_start if item['kind'] in ('struct', 'enum') else it.start):it.end]
         sha = hashlib.sha256(text.encode()).hexdigest()
         if item['kind'] == 'fn':
-            olines, rewritten = splice_function(text, item, log, where)
+            degraded = None
+            try:
+                olines, rewritten = splice_function(text, item, log, where)
+            except ExtractError as e:
+                # the function no longer has the shape the proof overlay was written for: keep its CONTRACT, drop what cannot be
+                # attached, and let the verifier decide what it still can (see runner: failures in a degraded function that still
+                # has loops are undecided, failures in loop-free code are reported)
+                if not item['spec'] or item['mode'] == 'external_body':
+                    raise
+                degraded = str(e)
+                log.append(('DEGRADED', where, 'overlay lost its anchor (%s); contract kept, shape-dependent directives dropped' % e))
+                olines, rewritten = splice_function(text, item, log, where, degraded=True)
         else:
             t2 = apply_core_rules(text, log, where, keep_pub=True, keep_derive=tuple(item.get('keepderive', ())), drop_derive=tuple(item.get('dropderive', ())))
             for r in item['rules']:
@@ -936,7 +960,8 @@ def build_unit(template, repo, out_rs, out_map):
         functions.append({'kind': item['kind'], 'file': item['file'], 'name': item['name'], 'src_line': line,
                           'src_end_line': line + text.count('\n'), 'sha256': sha, 'tags': item['tags'],
                           'out_first': first_out, 'out_last': len(out), 'mode': item['mode'],
-                          'clauses': count_clauses(item)})
+                          'clauses': count_clauses(item), 'degraded': degraded if item['kind'] == 'fn' else None,
+                          'has_loops': bool(find_loops(rewritten)[1]) if item['kind'] == 'fn' else False})
     with open(out_rs, 'w') as f:
         f.write('\n'.join(l for l, _ in out) + '\n')
     m = {'template': template, 'functions': functions,
